@@ -3,7 +3,7 @@ C03 — block caches are transparent.
 PROPERTY THEOREMS ONLY (model: Hts.Model.CachedReader; contract: Hts.Spec.CacheContract; proofs: Hts.Lemmas.CachedReader).
 
 Scope of the theorems: the sequential reader (`rd = 1`), every file whose members have positive size, every history
-of Seek / Read / ReadByte / Blocked / SetCache(new cache or nil) of any length, every cache that satisfies the
+of Seek / Read / ReadByte / Blocked / SetCache(new cache | nil | a cache used earlier in the history) of any length, every cache that satisfies the
 contract (proved for LRU, Random and StatsRecorder around them in C14; FIFO does not satisfy it).
 The code variant is any one in which a block whose load failed keeps no data (`Cfg.noStale`: repair C03-1
 `clearOnRebase` — `setBase` drops the previous data — or repair C09-2 `failReset` — `decompressor.failAt` — or both, as in
@@ -31,10 +31,11 @@ def outputs (cfg : Cfg) (o : CacheOps σ) (f : File) (ops : List (Op σ)) : Exce
 
 /-! ### cache_inv -/
 
-/-- **cache_inv**: after every history (including `SetCache` at arbitrary points) every cache entry `(k, id)`
+/-- **cache_inv**: after every history (including `SetCache` of new caches, `SetCache(nil)` and re-attaching a
+cache used earlier, at arbitrary points) every entry `(k, id)` of the attached cache **and of every detached cache**
 refers to an allocated block that is not the current block, whose base is `k` and whose data, header size and
-file offset are those of the member at `k`; block identities in the cache are pairwise distinct; the current
-block, if it claims to hold data, holds the member of its base. -/
+file offset are those of the member at `k`; block identities are pairwise distinct within and across these caches;
+the current block, if it claims to hold data, holds the member of its base. -/
 theorem cache_inv (o : CacheOps σ) (wf : σ → Prop) (ct : Contract o wf) (cfg : Cfg)
     (hcfg : cfg.noStale) (f : File) (hf : FileOK f) (ops : List (Op σ))
     (ok : ∀ op ∈ ops, OpOK o wf op) (r0 r : Reader σ) (outs : List Out)
@@ -116,7 +117,7 @@ theorem cached_faults_only_as_uncached (o : CacheOps σ) (wf : σ → Prop) (ct 
 tree with `failAt` alone -/
 theorem current_tree_noStale : Cfg.repaired.noStale := Or.inl rfl
 
-example : (⟨false, false, true⟩ : Cfg).noStale := Or.inr rfl
+example : (⟨false, false, true, false⟩ : Cfg).noStale := Or.inr rfl
 
 /-! ### instances -/
 
@@ -219,6 +220,38 @@ def fifo_transparent_repaired_full : Prop :=
   ∀ (f : File), FileOK f → ∀ (ops : List (Op LCache)), (∀ op ∈ ops, OpOK fifoOps LCache.WF op) →
     ∀ outs, outputs Cfg.repaired fifoOps f ops = .ok outs →
       outputs Cfg.repaired fifoOps f (ops.map Op.uncached) = .ok outs
+
+/-! ### attaching again a cache that was used before (`SetCache(nil)` … `SetCache(the same cache)`)
+
+`Op.reattach i` attaches the `i`-th cache object that was replaced earlier in the history, with the blocks it holds
+(`Reader.parked` is the list of those objects).  `cache_inv` covers them: every detached cache stays intact and shares
+no block with the attached one, so `cached_refines_uncached` holds for histories with `reattach` too (`OpOK` puts no
+condition on it).  For FIFO it fails on a tree without repair C03-5: -/
+
+/-- FIFO(4): Read 8 (b0 and part of b1); Seek b0 (hit: the used block stays in the FIFO); SetCache(nil); Seek b2
+(the block is recycled for "CCCC"); SetCache(the same FIFO); Seek b0; Read 2. -/
+def reattachHist : List (Op LCache) :=
+  [.setCache (some (LCache.new 4)) [], .read 8, .seek 0 0, .setCache none [], .seek 70 0, .reattach 0 [],
+    .seek 0 0, .read 2]
+
+/-- without repair C03-5 (variant ⟨…, lentGuard := false⟩) the last Read returns "CC" … -/
+theorem fifo_reattach_witness :
+    (bytesOf (outputs ⟨true, true, true, false⟩ fifoOps file3 reattachHist)).getLast? = some ([67, 67], .ok) := by
+  decide
+
+/-- … with repair C03-5 it returns "AA", as the uncached reader does -/
+theorem fifo_reattach_repaired :
+    bytesOf (outputs Cfg.repaired fifoOps file3 reattachHist) =
+      bytesOf (outputs Cfg.repaired fifoOps file3 (reattachHist.map Op.uncached)) := by decide
+
+/-- the same history with an LRU is an instance of `lru_transparent` (hypotheses satisfied, run `ok`) -/
+example : (∀ op ∈ reattachHist, OpOK lruOps LCache.WF op) ∧
+    (bytesOf (outputs Cfg.repaired lruOps file3 reattachHist)).getLast? = some ([65, 65], .ok) := by
+  refine ⟨?_, by decide⟩
+  intro op hop
+  simp only [reattachHist, List.mem_cons, List.mem_nil_iff, or_false] at hop
+  rcases hop with h1 | h1 | h1 | h1 | h1 | h1 | h1 | h1 <;> subst h1 <;>
+    first | exact lru_setCache_ok 4 (by decide) [] | trivial
 
 /-! ### read-ahead with a cache (rd > 1): the recorded finding, pinned on an abstract transition system
 
